@@ -659,7 +659,11 @@ fn format_type_info_internal(
                     |ctx, type_info, shape| format_hangable_type_info(ctx, type_info, shape, 0),
                     shape,
                 )
-            } else if types.len() == 1 && !keep_parentheses(types.iter().next().unwrap(), context) {
+            } else if types.len() == 1
+                && !keep_parentheses(types.iter().next().unwrap(), context)
+                // Only the comments after `)` are transferred below: comments before `(` would be lost
+                && !start_brace.leading_trivia().any(trivia_is_comment)
+            {
                 // If its just a single type inside parentheses, and its not a function or composite type, then remove the parens
                 let internal_type = singleline_types.into_iter().next().unwrap();
 
